@@ -3,6 +3,7 @@ import Reamber.Props.C04
 #print axioms Reamber.BMS.layouts_wellformed
 #print axioms Reamber.BMS.channelOf_laneOf
 #print axioms Reamber.BMS.slot_position
+#print axioms Reamber.BMS.bms_times
 #print axioms Reamber.BMS.bms_times_partial
 #print axioms Reamber.Timing.lookupOffset_eq_timeAtAux
 #print axioms Reamber.Timing.cumOffsets_eq
